@@ -6,7 +6,7 @@ V = os.path.dirname(os.path.dirname(os.path.abspath(__file__)))
 prop, which = sys.argv[1], sys.argv[2]
 tier = sys.argv[sys.argv.index("--tier") + 1] if "--tier" in sys.argv else "quick"
 rnd = sys.argv[sys.argv.index("--round") + 1] if "--round" in sys.argv else "1"
-src = ("/tmp/seeds/out/%s/%s" if rnd == "1" else "/tmp/seeds/out2/%s/%s") % (prop, which)
+src = ("/tmp/seeds/out/%s/%s" if rnd == "1" else "/tmp/seeds/out" + rnd + "/%s/%s") % (prop, which)
 tag = which if rnd == "1" else "r%s%s" % (rnd, which)
 dst = os.path.join(V, "seeded", "%s-%s" % (prop, tag))
 if not os.path.isdir(src) and os.path.isdir(dst):
